@@ -569,6 +569,21 @@ impl NameResolution {
                 let traits = traits
                     .iter()
                     .map(|path| {
+                        if path.len() > 1 {
+                            let qualified: hir::QualifiedPath = path.into();
+                            if let Some(package) = &qualified.package
+                                && !package_allowed(
+                                    package.as_str(),
+                                    ctx.current_package,
+                                    ctx.imports,
+                                )
+                            {
+                                self.error(format!(
+                                    "package {} not imported in package {}",
+                                    package.0, ctx.current_package
+                                ));
+                            }
+                        }
                         hir::Path::new(path.segments().iter().map(hir::PathSegment::from).collect())
                     })
                     .collect::<Vec<_>>();
